@@ -87,6 +87,8 @@ impl Out {
         self.w.write_all(b"\n").unwrap();
         // (flushed record by record: a watchdog may end the process at any time and the trace so far must be on disk)
         self.w.flush().unwrap();
+        // heartbeat: a driver that emits nothing for fifteen minutes is stuck in a call that does not return
+        watch::beat(900);
         self.lines += 1;
     }
     pub fn finish(mut self) -> usize {
@@ -157,5 +159,17 @@ pub mod watch {
     }
     pub fn disarm() {
         DEADLINE.store(0, Ordering::Relaxed);
+    }
+    /// push the deadline out to at least `secs` from now (never shortens a deadline armed for a command)
+    pub fn beat(secs: u64) {
+        let want = now() + secs;
+        if DEADLINE.load(Ordering::Relaxed) < want {
+            if let Ok(mut w) = WHAT.lock() {
+                if w.is_empty() || w.starts_with("no record") {
+                    *w = format!("no record written for {secs} s");
+                }
+            }
+            DEADLINE.store(want, Ordering::Relaxed);
+        }
     }
 }
